@@ -627,4 +627,10 @@ theorem leaf_interpretation (stack : Stack) (mem : Memory) :
   · simp [h2]
   · by_cases h1 : stack = [1] <;> simp [h1, h2]
 
+/-- The check gives no program a gas budget of its own: `run_program` charges one unit per operation and runs every program with
+`GasLimit::UNLIMITED` (`total = u64::MAX`), so "no program fails" in C01 is about what the programs do, not about how long they
+take. Both constants are regenerated from `run_program` and `GasLimit::UNLIMITED` on every run (gen/consts_from_rust.py); the
+correspondence driver instantiates `CheckEnv.baseEnv` with them. -/
+theorem check_gas_unlimited : Consts.checkGasCost = 1 ∧ Consts.checkGasLimit = u64Max := by decide
+
 end Essential.C01
